@@ -217,6 +217,26 @@ def _is_compile(node):
 		and 're' == node.func.value.id and node.args and isinstance(node.args[0], ast.Constant) and isinstance(node.args[0].value, str))
 
 
+def parse_deps_config():
+	"""deps.config read directly (not through DepsChecker): {'defines': {name: [values]}, 'lines': [(source, destination)]}."""
+	defines = {}
+	lines = []
+	with open(os.path.join(REPO, 'linters/cpp/deps.config'), 'rt', encoding='utf8') as infile:
+		for raw in infile:
+			line = raw.split('#', 1)[0].strip()
+			if not line:
+				continue
+			if '->' in line:
+				source, destination = line.split('->')
+				lines.append((source.strip(), destination.strip()))
+			elif ' = ' in line:
+				name, values = line.split(' = ')
+				defines[name.strip()] = sorted(set(values.split()))
+			else:
+				raise ValueError(f'deps.config: cannot read line {raw!r}')
+	return {'defines': defines, 'lines': lines}
+
+
 def translate(_ctx):
 	from translate import pyregex  # pylint: disable=import-outside-toplevel
 	entries, typo_count, constants = extract_regexes()
@@ -233,8 +253,21 @@ def translate(_ctx):
 			hashes.append(match.group(1))
 		else:
 			problems.append('translator: CopyrightCommentValidator.expected_hash not found')
+	deps = parse_deps_config()
+	names = sorted({name for src, dst in deps['lines'] for name in (src, dst)} | {name for values in deps['defines'].values() for name in values})
+	for name in names:
+		if name not in deps['defines'] and not re.fullmatch(r'(?:[A-Za-z0-9_/-]|\.\*|\.)*', name):
+			problems.append(f'translator: deps.config name {name!r} is outside the modelled pattern syntax (letters, digits, _ / - . and .*)')
+	deps_text = (
+		'/-- deps.config: `NAME = a b c` -/\n'
+		'def depsDefines : List (List Char × List (List Char)) := [\n'
+		+ ',\n'.join(f'  ({pyregex.lean_chars(name)}, [{", ".join(pyregex.lean_chars(value) for value in values)}])' for name, values in deps['defines'].items())
+		+ ']\n'
+		'/-- deps.config: `source -> destination`, in file order -/\n'
+		'def depsLines : List (List Char × List Char) := [\n'
+		+ ',\n'.join(f'  ({pyregex.lean_chars(src)}, {pyregex.lean_chars(dst)})' for src, dst in deps['lines']) + ']\n')
 	text = (
-		'/- generated by harness/c19.py from linters/cpp/validation.py; do not edit -/\n'
+		'/- generated by harness/c19.py from linters/cpp/validation.py and linters/cpp/deps.config; do not edit -/\n'
 		'import SymbolVerif.Model.Lint.Regex\n'
 		'namespace SymbolVerif.Generated.Lint\n'
 		'open SymbolVerif.Lint.Regex\n'
@@ -244,6 +277,7 @@ def translate(_ctx):
 		'def validatorTable : List (RE × List Char) := [\n' + ',\n'.join(row(entry) for entry in entries[typo_count:]) + ']\n'
 		f'def lineLengthLimit : Nat := {constants["lineLengthLimit"]}\n'
 		f'def copyrightSha1Hex : String := "{hashes[0].upper() if hashes else ""}"\n'
+		+ deps_text +
 		'end SymbolVerif.Generated.Lint\n')
 	write_if_changed(os.path.join(LEAN, 'SymbolVerif', 'Generated', 'LintTables.lean'), text)
 	return problems
@@ -640,16 +674,35 @@ class CrossComponentInclude(Family):
 
 
 class ForbiddenDependency(Family):
+	"""An #include of a directory that deps.config forbids for the file's directory; the directory is drawn from ALL forbidden
+	ones, preferring those a directory with a shorter name (a proper prefix of this one) would be allowed."""
 	name = 'dependencies:forbidden-include'
+	oracle = None
+	destinations = None
+	current_relpath = None
+
+	@classmethod
+	def forbidden(cls, source):
+		if cls.oracle is None:
+			cls.oracle = DepsOracle()
+			cls.destinations = [name for name in cls.oracle.names if '.' not in name and '/' in name]
+		out = [destination for destination in cls.destinations if not cls.oracle.allowed(source, destination)]
+		shorter = [name for name in cls.oracle.reach if '.' not in name and source.startswith(name) and source != name]
+		preferred = [destination for destination in out if any(cls.oracle.allowed(name, destination) for name in shorter)]
+		return out, preferred
 
 	def candidates(self, lines, relpath):
-		if not relpath.startswith('src/catapult/utils/') or relpath.count('/') != 3:
+		source = source_directory(relpath)
+		if source is None or not self.forbidden(source)[0]:
 			return []
-		return [index for index, line in enumerate(lines[:-1]) if line.startswith('#include')][-1:]
+		return [index for index, line in enumerate(lines[:-1]) if line.startswith('#include "')][-1:]
 
 	def apply(self, lines, site, rng):
-		target = rng.choice(['catapult/ionet/Packet.h', 'catapult/model/Block.h', 'catapult/chain/ChainFunctions.h'])
-		return _insert(lines, site + 1, f'#include "{target}"'), {'group': 'dependency', 'lineno': None, 'kind': None}
+		source = source_directory(self.current_relpath)
+		out, preferred = self.forbidden(source)
+		destination = rng.choice(preferred) if preferred and rng.random() < 0.6 else rng.choice(out)
+		return _insert(lines, site + 1, f'#include "{destination}/Seeded.h"'), {
+			'group': 'dependency', 'lineno': None, 'kind': f'{source} -> {destination}', 'seeded_line': f'#include "{destination}/Seeded.h"'}
 
 
 class NamespaceRename(Family):
@@ -860,6 +913,7 @@ def _seed(case):
 	family = _W['catalogue'][case['family']]
 	original = _original(case['relpath'])
 	lines = original.split('\n')
+	family.current_relpath = case['relpath']
 	new_lines, expectation = family.apply(lines, case['site'], random.Random(case['seed']))
 	return '\n'.join(new_lines), expectation, original
 
@@ -1161,6 +1215,10 @@ def run(ctx):
 		_POOL_ROOT = ctx.tmpdir()
 		workers = max(2, min(8, (os.cpu_count() or 4) // 2))
 		with multiprocessing.get_context('fork').Pool(workers, initializer=_pool_init) as pool:
+			oracle = DepsOracle()
+			mark = time.time()
+			check_dependencies_exhaustively(ctx, pool, oracle, deps_universe(oracle, files, base))
+			ctx.count('seconds:dependency-pairs', int(time.time() - mark))
 			sampled = files if ctx.thorough else rng.sample(files, 260)
 			family_indexes = list(range(len(catalogue)))
 			sites_by_file = dict(pool.imap_unordered(file_sites, [(relpath, family_indexes) for relpath in sampled], chunksize=8))
@@ -1274,6 +1332,11 @@ def replay(ctx, payload):
 		finish_full_run(ctx, start_full_run(ctx, split=False))
 	elif 'catalogue' == kind:
 		check_frozen_catalogue(ctx)
+	elif 'deps' == kind:
+		_POOL_ROOT = ctx.tmpdir()
+		oracle = DepsOracle()
+		with multiprocessing.get_context('fork').Pool(1, initializer=_pool_init) as pool:
+			check_dependencies_exhaustively(ctx, pool, oracle, ([case['source']], [case['destination']], [], []))
 	else:
 		run(ctx)
 
@@ -1295,14 +1358,188 @@ MANIFEST = {
 		'(search_context) and every table entry has a kernel-checked witness (typo_witnesses, validator_witnesses, re-generated from '
 		'validation.py on every run); seeded-edit theorems for the modelled line rules (trailing whitespace, spaces at start, tabs in empty '
 		'line, tab inside, line length with tabs as 4 incl. the boundary, consecutive / near-end blank lines, mistyped region comment, typo '
-		'insertion, empty line after #pragma once) with undo theorems; exit_is_count and shell_status_wraps. Executed on the real code: the CI command over the whole tree (42 suites silent, exit 0) and ~2000 (quick) seeded '
-		'edits of every catalogue family incl. the unmodelled ones, each linted alone, after a dirty file, and undone.'),
+		'insertion, empty line after #pragma once) with undo theorems; exit_is_count and shell_status_wraps; DepsChecker: deps_closure_spec (process_rules = transitive closure of the '
+		'expanded rules), allowed_iff, allowed_needs_full_source_match / extended_source_gets_nothing_from (anchoring), '
+		'shipped_deps_config_closes. Executed on the real code: the CI command over the whole tree (42 suites silent, exit 0) and ~2000 (quick) seeded '
+		'edits of every catalogue family incl. the unmodelled ones, each linted alone, after a dirty file, and undone; EVERY (source directory x include directory) pair of the tree plus synthetic '
+		'neighbour directories through the real DepsChecker.match against an oracle written from deps.config and against the Lean model.'),
 	'level_note': (
 		'Not modelled: Parser.NamespacesParser and forwardsValidation (PLY-tokenised C++), MultiConditionChecker, SingleLineValidator, '
-		'strip_comments_and_strings; these families are covered by seeded edits on the implementation only. DepsChecker closure is not '
-		'proved. The namespace/forward parsers run on a PLY stand-in. \\w \\d \\b modelled on ASCII. SHA-1 is a parameter.'),
+		'strip_comments_and_strings; these families are covered by seeded edits on the implementation only. The namespace/forward parsers run on a PLY stand-in. \\w \\d \\b modelled on ASCII. SHA-1 is a parameter.'),
 	'technique': 'Lean 4 theorems over a hand-written model + differential correspondence with the Python implementation',
 }
+
+
+# region DepsChecker: independent oracle and exhaustive correspondence
+
+
+class DepsOracle:
+	"""The verdict deps.config prescribes, written directly from the file: defines expanded, rules closed transitively over the
+	names as strings, every name used as a full-string pattern (plain `re.fullmatch`)."""
+
+	def __init__(self):
+		config = parse_deps_config()
+		defines = config['defines']
+		edges = set()
+
+		def expand(source, destination, level):
+			if level >= 5:
+				raise ValueError('define nesting too deep')
+			if source in defines:
+				for item in defines[source]:
+					expand(item, destination, level + 1)
+			elif destination in defines:
+				for item in defines[destination]:
+					expand(source, item, level + 1)
+			else:
+				edges.add((source, destination))
+
+		for source, destination in config['lines']:
+			expand(source, destination, 1)
+		direct = {}
+		for source, destination in edges:
+			direct.setdefault(source, set()).add(destination)
+		self.reach = {}
+		for source in direct:
+			seen = set()
+			todo = list(direct[source])
+			while todo:
+				name = todo.pop()
+				if name not in seen:
+					seen.add(name)
+					todo.extend(direct.get(name, ()))
+			self.reach[source] = seen
+		self.names = sorted(set(direct) | {name for values in direct.values() for name in values})
+		self.compiled = {name: re.compile(name) for name in self.names}
+		self._by_source = {}
+
+	def destinations_for(self, source):
+		if source not in self._by_source:
+			patterns = set()
+			for name, reached in self.reach.items():
+				if self.compiled[name].fullmatch(source):
+					patterns |= reached
+			self._by_source[source] = [self.compiled[name] for name in sorted(patterns)]
+		return self._by_source[source]
+
+	def allowed(self, source, destination):
+		fixed = destination if '/' in destination or 'catapult' == destination else source + '/' + destination
+		return any(pattern.fullmatch(fixed) for pattern in self.destinations_for(source))
+
+
+def source_directory(relpath):
+	"""The source directory check_dependencies derives from a file name, or None when the file is not dependency-checked."""
+	if not any(re.match(top, relpath) for top in _Args.dep_check_dir) or 'tests' in relpath:
+		return None
+	parts = re.split(r'[/\\]', os.path.dirname(relpath))
+	return '/'.join(parts[1:]) if 'src' == parts[0] else '/'.join(parts)
+
+
+def deps_universe(oracle, files, base):
+	"""(real source directories, real include directories, synthetic sources, synthetic destinations)."""
+	sources = sorted({source_directory(relpath) for relpath in files} - {None})
+	destinations = set()
+	include_re = re.compile(r'\s*#\s*include[ \t]*"([^">]*)"')
+	for relpath in files:
+		with open(os.path.join(base, relpath), 'rt', encoding='utf8', errors='replace') as infile:
+			for line in infile:
+				if 'include' in line:
+					match = include_re.match(line)
+					if match and os.path.dirname(match.group(1)):
+						destinations.add(os.path.dirname(match.group(1)))
+	literal = [name for name in oracle.names if '.' not in name]
+	patterned = [name for name in oracle.names if '.' in name]
+	destinations |= set(literal) | {name.replace('.*', '') for name in patterned} | {name.replace('.*', '/x') for name in patterned}
+
+	def neighbours(name):
+		out = {name + 'x', name + '_x', name + '/sub', name + '/'}
+		if len(name) > 1:
+			out.add(name[:-1])
+		if '/' in name:
+			out.add(name.rsplit('/', 1)[0])
+		return out
+
+	synthetic_sources = set()
+	synthetic_destinations = set()
+	for name in literal + [name.replace('.*', '') for name in patterned]:
+		synthetic_sources |= neighbours(name)
+		synthetic_destinations |= neighbours(name)
+	# every real directory that extends another real directory by a name suffix is already in `sources`; add the reverse direction
+	synthetic_sources -= set(sources)
+	synthetic_destinations -= destinations
+	return sources, sorted(destinations), sorted(synthetic_sources - {''}), sorted(synthetic_destinations - {''})
+
+
+def deps_rows(job):
+	"""Worker: the real DepsChecker.match for one source directory against many destinations -> string of 0/1."""
+	source, destinations = job
+	if 'deps' not in _W:
+		_W['deps'] = _W['DepsChecker']('deps.config', [])
+	checker = _W['deps']
+	checker.errors = []
+	out = []
+	for destination in destinations:
+		out.append('1' if checker.match('seeded', source, destination, destination + '/Seeded.h') else '0')
+	checker.errors = []
+	return source, ''.join(out)
+
+
+def check_dependencies_exhaustively(ctx, pool, oracle, universe):
+	"""Every (source directory, include directory) pair: implementation vs oracle vs model."""
+	sources, destinations, synthetic_sources, synthetic_destinations = universe
+	ctx.count('deps:source-directories', len(sources))
+	ctx.count('deps:include-directories', len(destinations))
+	ctx.count('deps:synthetic-sources', len(synthetic_sources))
+	ctx.count('deps:synthetic-destinations', len(synthetic_destinations))
+	# quick: ALL real pairs; the synthetic neighbours (names extended / truncated by a suffix or a path component) are sampled
+	step = 1 if ctx.thorough else 5
+	wide = destinations + synthetic_destinations[::step]
+	narrow = wide if ctx.thorough else destinations
+	jobs = [(source, wide) for source in sources] + [(source, narrow) for source in synthetic_sources[::step]]
+	results = pool.imap_unordered(deps_rows, jobs, chunksize=4)  # the workers start on the implementation's verdicts right away
+	model_rows = {}
+	mark = time.time()
+	if ctx.driver:
+		encoded = {id(wide): ','.join(sx(destination) for destination in wide), id(narrow): ','.join(sx(destination) for destination in narrow)}
+		for number, (source, row_destinations) in enumerate(jobs):
+			if ctx.thorough or 0 == (number + ctx.seed) % 3:  # the model side is the slow one: a third of the rows per quick run
+				model_rows[source] = ctx.driver.ask(f'allowedrow {sx(source)} {encoded[id(row_destinations)]}')
+	ctx.count('seconds:dependency-pairs:model', int(time.time() - mark))
+	lists = dict(jobs)
+	wrongly_allowed = 0
+	for source, row in results:
+		row_destinations = lists[source]
+		ctx.case(('deps-row', source), {'source': source, 'allowed': row.count('1'), 'of': len(row)} if len(ctx.samples) < 12 else None)
+		ctx.count('deps:pairs', len(row))
+		expected = ''.join('1' if oracle.allowed(source, destination) else '0' for destination in row_destinations)
+		if row != expected:
+			for destination, got, want in zip(row_destinations, row, expected):
+				if got != want:
+					case = {'kind': 'deps', 'source': source, 'destination': destination, 'implementation': got, 'deps.config': want}
+					if '1' == got:
+						wrongly_allowed += 1
+						if wrongly_allowed <= 12:
+							ctx.fail(
+								'property', f'dependency rules: a file in {source!r} may include "{destination}/..." although deps.config does not allow it '
+								f'(DepsChecker.match returns True; a seeded #include of that directory there is a violation the linter does not report)', case)
+					else:
+						ctx.fail('corr', f'dependency rules: DepsChecker.match forbids {source!r} -> {destination!r}, which deps.config allows', case)
+						break
+		model = model_rows.get(source)
+		if model is not None:
+			ctx.count('deps:pairs-compared-with-the-model', len(row))
+			if model != row:
+				for destination, got, want in zip(row_destinations, model, row):
+					if got != want:
+						ctx.fail(
+							'corr', f'dependency rules: model {got}, implementation {want} for {source!r} -> {destination!r}',
+							{'kind': 'deps', 'source': source, 'destination': destination, 'model': got, 'implementation': want})
+						break
+	if wrongly_allowed:
+		ctx.count('deps:pairs-allowed-against-deps.config', wrongly_allowed)
+
+
+# endregion
 
 
 # region frozen catalogue (harness/c19_catalogue.json)
